@@ -451,6 +451,33 @@ def solve_equalities(ground, foralls, goal_parts, rounds=6):
     return ground + kept, foralls, goal_parts
 
 
+CROSS_CHECK = False  # thorough tier: re-decide every instantiated obligation with a second solver
+CROSS_SOLVER = "/usr/bin/z3"  # z3 4.8.12 (Debian), an independent build of a different version
+
+
+def cross_check(solver, timeout_s=60):
+    """export the quantifier-free instance (SMT-LIB 2) and decide it with the second back end.
+    cvc5 1.0.3 cannot be used: the instances rely on z3's combinatory array logic
+    ((_ map and) over (Array World Bool)), which cvc5 does not parse."""
+    import subprocess
+    import tempfile
+
+    txt = solver.to_smt2()
+    with tempfile.NamedTemporaryFile("w", suffix=".smt2", delete=False) as f:
+        f.write(txt)
+        path = f.name
+    try:
+        p = subprocess.run([CROSS_SOLVER, "-smt2", f"-T:{timeout_s}", path], capture_output=True, text=True, timeout=timeout_s + 10)
+        out = (p.stdout or "").strip().splitlines()
+        return out[0] if out else "error"
+    except Exception as e:  # pragma: no cover
+        return f"error {type(e).__name__}"
+    finally:
+        import os
+
+        os.unlink(path)
+
+
 def check_valid(hyps, goal, extra_axioms=(), timeout_ms=60000, fuel=3, want_model=True, exclude=(), seed_terms=()):
     """hyps: list of z3 Bool / Forall; goal: z3 Bool / Forall.  Decide hyps |- goal after
     ground instantiation.  Returns (status, info)."""
@@ -474,6 +501,13 @@ def check_valid(hyps, goal, extra_axioms=(), timeout_ms=60000, fuel=3, want_mode
     s.add(neg)
     r = s.check()
     info = {"instances": len(insts), "seconds": round(time.time() - t0, 4)}
+    if CROSS_CHECK and r != z3.unknown:
+        other = cross_check(s)
+        info["cross"] = other
+        agree = (other == "unsat" and r == z3.unsat) or (other == "sat" and r == z3.sat)
+        if other in ("sat", "unsat") and not agree:
+            info["reason"] = f"back ends disagree: z3 {z3.get_version_string()} says {r}, {CROSS_SOLVER} says {other}"
+            return "undecided", info
     if r == z3.unsat:
         return "proved", info
     if r == z3.sat:
